@@ -85,6 +85,15 @@ func (e *Engine) checkTypeInvs() {
 			}
 		}
 	}
+	// every constructor must itself be verified (non-trusted contract)
+	for _, ti := range e.cs.TypeInvs {
+		for _, cn := range ti.Ctors {
+			c := e.cs.ByName[ti.Pkg+"."+cn]
+			if c == nil || c.Trusted || len(c.Props) == 0 {
+				ti.Broken = fmt.Sprintf("constructor %s of %s is not under a verified contract", cn, ti.Type)
+			}
+		}
+	}
 	for k, ti := range e.cs.TypeInvs {
 		if ti.Broken != "" {
 			e.warn("typeinv %s disabled: %s", k, ti.Broken)
